@@ -44,8 +44,8 @@ def leaves(level=1):
     out = [P(p) for p in am.PRIMS]
     out += [N("E"), N("E8"), N("E64"), N("F"), N("F64"), N("RT"), N("RT2"), N("RS"), N("AP"), N("AC"), N("AO"),
             N(IMP_NS + ".IR"), N(IMP_NS + ".IE"), N(IMP_NS + ".IV"), N(IMP_NS + ".IG", P("int32")),
-            N("G", P("int32")), N("G", N("E")), N("GA", P("string")), N("G2", P("int32"), P("float32")),
-            N("G2", P("string"), N("RT")), N("GU", P("int32")), N("GU", N("E")), N("GU", P("date")),
+            N("G", P("int32")), N("G", N("E")), N("GA", P("string")), N("G2", P("uint16"), N("RT2")),
+            N("G2", P("string"), N("RT2")), N("G2", P("string"), N("RT")), N("GU", P("int32")), N("GU", N("E")), N("GU", P("date")),
             N("GN", P("float64")), N("GN", N("RT"))]
     return out
 
@@ -96,6 +96,9 @@ def constructors(x, full=True):
 
 
 def is_optlike(t):
+    """Optional or nullable union, also behind the leaf aliases/generics that are (or contain at top level) one."""
+    if t[0] == "named":
+        return t[1] in ("GN", "AO")
     return t[0] == "opt" or (t[0] == "union" and t[1][0][1] is None)
 
 
@@ -175,7 +178,75 @@ def ns_name(prefix, i):
 
 
 # ------------------------------------------------------------------ packing
-def pack(shape_list, namespace, per_protocol=25, per_package=100, with_records=True, skip_vector_bool=True):
+SCALAR_NAMED = {"E", "E8", "E64", "F", "F64", "AP", IMP_NS + ".IE"}
+
+
+def quarantine_class(t):
+    """Shape classes with confirmed defects (see known_findings.txt) are packed into their own protocols (PQ<class>*) so
+    that their failures cannot mask or contaminate other shapes:
+      a = Python: array (fixed / n-dim / dynamic) whose element is not a number/bool/string/enum (records, vectors,
+          maps, dates, generics ...)
+      c = NDJSON: unions declared over a type parameter (GU, GN, G2): C++ decides tagged/untagged per closed
+          instantiation, Python once at the generic definition, so the two languages cannot read each other
+      b = C++ NDJSON: a generic union instantiation (G2<string, RT>) whose std::variant type is also produced by a
+          concrete union ([string, RT]) elsewhere in the package"""
+    def scalar(x):
+        return (x[0] == "prim" and x[1] not in ("date", "time", "datetime")) or (x[0] == "named" and x[1] in SCALAR_NAMED)
+
+    def has_bad_array(x):
+        if x is None:
+            return False
+        k = x[0]
+        if k == "arr":
+            return not scalar(x[1]) or has_bad_array(x[1])
+        if k in ("opt", "vec", "stream"):
+            return has_bad_array(x[1])
+        if k == "map":
+            return has_bad_array(x[1]) or has_bad_array(x[2])
+        if k == "union":
+            return any(has_bad_array(c) for _, c in x[1])
+        if k == "named":
+            return any(has_bad_array(a) for a in x[2])
+        return False
+
+    def has_coll(x):
+        if x is None:
+            return False
+        if x == N("G2", P("string"), N("RT")):
+            return True
+        k = x[0]
+        if k in ("opt", "vec", "stream", "arr"):
+            return has_coll(x[1])
+        if k == "map":
+            return has_coll(x[1]) or has_coll(x[2])
+        if k == "union":
+            return any(has_coll(c) for _, c in x[1])
+        if k == "named":
+            return any(has_coll(a) for a in x[2])
+        return False
+
+    def has_generic_union(x):
+        if x is None:
+            return False
+        k = x[0]
+        if k == "named":
+            return x[1] in ("G2", "GU", "GN") or any(has_generic_union(a) for a in x[2])
+        if k in ("opt", "vec", "stream", "arr"):
+            return has_generic_union(x[1])
+        if k == "map":
+            return has_generic_union(x[1]) or has_generic_union(x[2])
+        if k == "union":
+            return any(has_generic_union(c) for _, c in x[1])
+        return False
+
+    if has_generic_union(t):
+        return "c"
+    if has_bad_array(t):
+        return "a"
+    return None
+
+
+def pack(shape_list, namespace, per_protocol=25, per_package=100, with_records=True, skip_vector_bool=True, quarantine=True):
     """Packs shapes into packages. Each shape i becomes, in protocol P<k>:  step v<i>: shape ; step s<i>: !stream shape.
     Returns list of (Package, index) where index = list of (shape, protocol name, value step name, stream step name)."""
     pkgs = []
@@ -198,11 +269,18 @@ def pack(shape_list, namespace, per_protocol=25, per_package=100, with_records=T
     for pi in range(0, len(shape_list), per_package):
         chunk = shape_list[pi:pi + per_package]
         # date-bearing shapes go to their own protocols (PD*): their NDJSON text is not compared across languages
-        chunk = [s for s in chunk if not _has_date(s)] + [s for s in chunk if _has_date(s)]
-        ndate = sum(1 for s in chunk if _has_date(s))
         ns = ns_name(namespace, pi // per_package)
         protos, index = [], []
-        groups = [("P", chunk[:len(chunk) - ndate], 0), ("PD", chunk[len(chunk) - ndate:], len(chunk) - ndate)]
+        buckets = {}
+        for sh_ in chunk:
+            q = quarantine_class(sh_) if quarantine else None
+            prefix = ("PQ" + q) if q else ("PD" if _has_date(sh_) else "P")
+            buckets.setdefault(prefix, []).append(sh_)
+        groups, off = [], 0
+        for prefix in sorted(buckets):
+            groups.append((prefix, buckets[prefix], off))
+            off += len(buckets[prefix])
+        chunk = [s_ for _, g, _ in groups for s_ in g]
         for prefix, grp, off in groups:
             for qi in range(0, len(grp), per_protocol):
                 steps = []
@@ -223,7 +301,7 @@ def pack(shape_list, namespace, per_protocol=25, per_package=100, with_records=T
                 recs = []
                 for ri in range(0, len(grp), 10):
                     fields = [("f%d" % (off + ri + j), sh) for j, sh in enumerate(grp[ri:ri + 10])]
-                    recs.append(Record("W%s%d" % (prefix[1:], ri // 10), fields))
+                    recs.append(Record("W%s%d" % (prefix[1:].upper(), ri // 10), fields))
                 defs += recs
                 rsteps = []
                 for r in recs:
@@ -233,7 +311,7 @@ def pack(shape_list, namespace, per_protocol=25, per_package=100, with_records=T
                     protos.append(Protocol("%sR%d" % (prefix, ri // 50), rsteps[ri:ri + 50]))
                 gsteps = []
                 for gi, sh in enumerate(grp):
-                    gsteps.append(("g%d" % (off + gi), N("G", sh) if sh[0] not in ("opt", "union") else N("G1", sh)))
+                    gsteps.append(("g%d" % (off + gi), N("G", sh) if (sh[0] not in ("opt", "union") and not is_optlike(sh)) else N("G1", sh)))
                 for gi in range(0, len(gsteps), 50):
                     protos.append(Protocol("%sG%d" % (prefix, gi // 50), gsteps[gi:gi + 50]))
         pkg = Package(ns, defs=defs, protocols=protos, imports=[imp], dirname=ns.lower())
